@@ -861,6 +861,84 @@ func exportTables(repo string) (string, error) {
 	fmt.Fprintf(&b, "Definition tables2_of_source : tables2 := {|\n  t2_prims := [%s];\n  t2_find := [%s];\n  t2_composite := [%s];\n  t2_types_loop := %s;\n  t2_attrs_loop := %s;\n  t2_members_fresh := %s\n|}.\n\n",
 		strings.Join(p2, ";\n    "), strings.Join(find2, ";\n    "), strings.Join(comp2, "; "), typesLoop, attrsLoop, membersFresh)
 
+	// ---- syslwrapper.MapType: the kind string(s) each arm of the type switch assigns to simpleType; the Optional of a
+	// relation attribute that is a TypeRef (repair C12-6)
+	var mapArms []string
+	tabrefOpt := "false"
+	if app, err := parseGo(repo, "pkg/syslwrapper/app.go"); err != nil {
+		x.unk("app.go: %v", err)
+	} else if fd := etFindFunc(app, "AppMapper", "MapType"); fd == nil {
+		x.unk("MapType not found")
+	} else {
+		var ts *ast.TypeSwitchStmt
+		for _, st := range fd.Body.List {
+			if s, ok := st.(*ast.TypeSwitchStmt); ok {
+				if ts != nil {
+					x.unk("MapType: two type switches")
+				}
+				ts = s
+			}
+		}
+		if ts == nil {
+			x.unk("MapType: no type switch")
+		} else {
+			for _, cl := range ts.Body.List {
+				cc := cl.(*ast.CaseClause)
+				if cc.List == nil {
+					x.unk("MapType: default arm")
+					continue
+				}
+				var kinds []string
+				for _, st := range cc.Body {
+					ast.Inspect(st, func(n ast.Node) bool {
+						as, ok := n.(*ast.AssignStmt)
+						if !ok || len(as.Lhs) != 1 || !isIdent(as.Lhs[0], "simpleType") {
+							return true
+						}
+						if l, ok := etStrLit(as.Rhs[0]); ok {
+							kinds = append(kinds, etStr(l))
+						}
+						return true
+					})
+				}
+				for _, le := range cc.List {
+					name := "?"
+					if st, ok := le.(*ast.StarExpr); ok {
+						if ch := selChain(st.X); len(ch) == 2 {
+							name = strings.TrimSuffix(strings.TrimPrefix(ch[1], "Type_"), "_")
+						}
+					}
+					if name == "?" {
+						x.unk("MapType: unclassified case label")
+					}
+					mapArms = append(mapArms, fmt.Sprintf("(%s, [%s])", etStr(name), strings.Join(kinds, "; ")))
+					if name == "Relation" {
+						for _, st := range cc.Body {
+							ast.Inspect(st, func(n ast.Node) bool {
+								lit, ok := n.(*ast.CompositeLit)
+								if !ok || !isIdent(lit.Type, "Type") {
+									return true
+								}
+								for _, fe := range lit.Elts {
+									if kv, ok := fe.(*ast.KeyValueExpr); ok && isIdent(kv.Key, "Optional") {
+										if c, ok := kv.Value.(*ast.CallExpr); ok {
+											if ch := selChain(c.Fun); len(ch) == 2 && ch[1] == "GetOpt" {
+												tabrefOpt = "true"
+											}
+										}
+									}
+								}
+								return true
+							})
+						}
+					}
+				}
+			}
+		}
+	}
+	fmt.Fprintf(&b, "Definition maptype_of_source : list (string * list string) := [%s].\n\n", strings.Join(mapArms, ";\n    "))
+	fmt.Fprintf(&b, "Definition tabref_keeps_optional_of_source : bool := %s.\n\n", tabrefOpt)
+
 	var us []string
 	for _, u := range x.unknown {
 		us = append(us, etStr(u))
